@@ -11,6 +11,10 @@
 //!   bde_toks   <bdoc>   /  bde_tapeof <bdoc>           raw lexemes / tape of a binary document (Lean `tokensOf`/`tapeOf`
 //!                                                      vs. the real Lexer / BinaryTape on the rendering)
 //!   x-c04-real <cfg> <hex>                             fixed real derived structs vs. TySeed with the equivalent Ty
+//!   x-rare-bin <hex>                                   rarely used REAL target types (borrowed str / Cow, char, bytes, unit,
+//!                                                      newtype / tuple structs, arrays, i128 / u128, enums, IgnoredAny, maps
+//!                                                      keyed by token id) through all paths x resolver kinds x two flavors:
+//!                                                      same Debug string or all fail
 //!
 //! <cfg> = <E|S|I>/<H|L>/<id>:<hexname>,...   strategy / resolver kind (HashMap, from_text_Lines) / entries ("-" none)
 //! <ty>  = tyseed syntax, or at the root `tst(name#id:T;...)` = a `#[jomini(token = id)]` struct
@@ -851,6 +855,420 @@ fn real_all_paths<T: for<'de> serde::Deserialize<'de>>(c: &Cfg, data: &[u8], sho
     [t, s, r]
 }
 
+
+// ---------------------------------------------------------------------------------------
+// rarely used target types, resolvers and flavors (implementation-only op `x-rare-bin <hex>`)
+
+pub mod rare {
+    use super::*;
+    use jomini::Utf8Encoding;
+    use serde::de::IgnoredAny;
+    use serde::Deserialize;
+    use std::borrow::Cow;
+
+    /// second flavor: raw little-endian IEEE floats, UTF-8 strings
+    #[derive(Debug, Default, Clone, Copy)]
+    pub struct LeFlavor;
+    impl Encoding for LeFlavor {
+        fn decode<'a>(&self, data: &'a [u8]) -> Cow<'a, str> { Utf8Encoding::decode(data) }
+    }
+    impl BinaryFlavor for LeFlavor {
+        fn visit_f32(&self, data: [u8; 4]) -> f32 { f32::from_le_bytes(data) }
+        fn visit_f64(&self, data: [u8; 8]) -> f64 { f64::from_le_bytes(data) }
+    }
+
+    pub const FIELDS: &[&str] = &["c", "bb", "by", "us", "un", "nt", "ts", "arr", "big", "ubig", "e1", "e2", "ig", "hm", "ids", "s", "x", "y", "sv", "hv", "bs", "cow", "raw"];
+    pub const VARIANTS: &[&str] = &["Unit", "Newt", "Tup", "St"];
+    pub fn field_id(name: &str) -> u16 { 0x3000 + FIELDS.iter().position(|f| *f == name).unwrap() as u16 }
+    pub fn variant_id(name: &str) -> u16 { 0x3100 + VARIANTS.iter().position(|f| *f == name).unwrap() as u16 }
+    /// the token table every resolver of the op is built from
+    pub fn table() -> Vec<(u16, String)> {
+        let mut t: Vec<(u16, String)> = FIELDS.iter().map(|f| (field_id(f), f.to_string())).collect();
+        t.extend(VARIANTS.iter().map(|v| (variant_id(v), v.to_string())));
+        t.push((0x3200, "q".to_string()));
+        t.push((0x3201, "some_value".to_string()));
+        t
+    }
+
+    #[derive(Deserialize, Debug)]
+    pub struct UnitS;
+    #[derive(Deserialize, Debug)]
+    pub struct Newt(pub i32);
+    #[derive(Deserialize, Debug)]
+    pub struct Tup(pub i32, pub String);
+    #[derive(Deserialize, Debug)]
+    pub enum En { Unit, Newt(i32), Tup(i32, i32), St { a: i32 } }
+
+    /// hand-written byte-buffer target (`deserialize_byte_buf`)
+    #[derive(Debug)]
+    pub struct BBuf(pub Vec<u8>);
+    /// hand-written bytes target (`deserialize_bytes`)
+    #[derive(Debug)]
+    pub struct Byt(pub Vec<u8>);
+    struct BytesVis;
+    impl<'de> Visitor<'de> for BytesVis {
+        type Value = Vec<u8>;
+        fn expecting(&self, f: &mut fmt::Formatter) -> fmt::Result { f.write_str("bytes") }
+        fn visit_bytes<E: de::Error>(self, v: &[u8]) -> Result<Vec<u8>, E> { Ok(v.to_vec()) }
+        fn visit_byte_buf<E: de::Error>(self, v: Vec<u8>) -> Result<Vec<u8>, E> { Ok(v) }
+        fn visit_str<E: de::Error>(self, v: &str) -> Result<Vec<u8>, E> { Ok(v.as_bytes().to_vec()) }
+        fn visit_string<E: de::Error>(self, v: String) -> Result<Vec<u8>, E> { Ok(v.into_bytes()) }
+    }
+    impl<'de> Deserialize<'de> for BBuf {
+        fn deserialize<D: Deserializer<'de>>(d: D) -> Result<Self, D::Error> { d.deserialize_byte_buf(BytesVis).map(BBuf) }
+    }
+    impl<'de> Deserialize<'de> for Byt {
+        fn deserialize<D: Deserializer<'de>>(d: D) -> Result<Self, D::Error> { d.deserialize_bytes(BytesVis).map(Byt) }
+    }
+    /// hand-written owned string target that asks with `deserialize_str` (what `&str` / `Cow<str>` targets call; owned,
+    /// so that the reader path can be asked too)
+    #[derive(Debug)]
+    pub struct StrVia(pub String);
+    struct StrVis;
+    impl<'de> Visitor<'de> for StrVis {
+        type Value = String;
+        fn expecting(&self, f: &mut fmt::Formatter) -> fmt::Result { f.write_str("a string") }
+        fn visit_str<E: de::Error>(self, v: &str) -> Result<String, E> { Ok(v.to_string()) }
+        fn visit_string<E: de::Error>(self, v: String) -> Result<String, E> { Ok(v) }
+    }
+    impl<'de> Deserialize<'de> for StrVia {
+        fn deserialize<D: Deserializer<'de>>(d: D) -> Result<Self, D::Error> { d.deserialize_str(StrVis).map(StrVia) }
+    }
+    /// a resolver that only implements `resolve` (the trait's default `is_empty`)
+    pub struct TableResolver(pub Vec<(u16, String)>);
+    impl TokenResolver for TableResolver {
+        fn resolve(&self, token: u16) -> Option<&str> { self.0.iter().find(|e| e.0 == token).map(|e| e.1.as_str()) }
+    }
+    /// a map keyed by token id (`deserialize_u16` on keys), printed in key order
+    #[derive(Deserialize)]
+    pub struct HM(pub HashMap<u16, i32>);
+    impl fmt::Debug for HM {
+        fn fmt(&self, f: &mut fmt::Formatter) -> fmt::Result {
+            let mut v: Vec<_> = self.0.iter().collect();
+            v.sort();
+            write!(f, "HM{:?}", v)
+        }
+    }
+
+    /// a map with container values (`size_hint` walks over them), printed in key order
+    #[derive(Deserialize)]
+    pub struct HV(pub HashMap<String, Vec<i32>>);
+    impl fmt::Debug for HV {
+        fn fmt(&self, f: &mut fmt::Formatter) -> fmt::Result {
+            let mut v: Vec<_> = self.0.iter().collect();
+            v.sort();
+            write!(f, "HV{:?}", v)
+        }
+    }
+    /// the whole document as a map (the root `size_hint`), printed in key order
+    /// (asked for directly with `deserialize_map`: the root deserializers only know key-value pairs)
+    pub type RootMap = HashMap<String, IgnoredAny>;
+    fn show_root(v: &RootMap) -> String { let mut k: Vec<&String> = v.keys().collect(); k.sort(); format!("RootMap{:?}", k) }
+
+    /// owned targets: every path
+    #[derive(Deserialize, Debug)]
+    pub struct RareO {
+        pub c: Option<char>, pub bb: Option<BBuf>, pub by: Option<Byt>, pub us: Option<UnitS>, pub un: Option<()>,
+        pub nt: Option<Newt>, pub ts: Option<Tup>, pub arr: Option<[i32; 2]>, pub big: Option<i128>, pub ubig: Option<u128>,
+        pub e1: Option<En>, pub e2: Option<En>, pub ig: Option<IgnoredAny>, pub hm: Option<HM>, pub ids: Option<Vec<u16>>,
+        pub s: Option<String>, pub x: Option<f32>, pub y: Option<f64>, pub sv: Option<StrVia>, pub hv: Option<HV>,
+    }
+    /// borrowed targets: the tape and the slice path
+    #[derive(Deserialize, Debug)]
+    pub struct RareB<'a> {
+        #[serde(borrow)] pub bs: Option<&'a str>,
+        #[serde(borrow, default)] pub cow: Cow<'a, str>,
+        #[serde(borrow)] pub raw: Option<&'a [u8]>,
+        pub s: Option<String>, pub ig: Option<IgnoredAny>, pub c: Option<char>,
+    }
+    fn show_b(v: &RareB) -> String { format!("{:?} cow_borrowed={}", v, matches!(v.cow, Cow::Borrowed(_))) }
+
+    fn fin<T>(r: Result<T, jomini::Error>, show: impl Fn(&T) -> String) -> String {
+        match r { Ok(v) => show(&v), Err(e) => err_class(&e.to_string()) }
+    }
+
+    /// every path of the owned target for one flavor / strategy / resolver: (label, result)
+    pub fn owned_paths<F: BinaryFlavor, RES: TokenResolver>(mk: &dyn Fn() -> F, strat: FailedResolveStrategy, res: &RES, data: &[u8], need: usize) -> Vec<(&'static str, String)> {
+        let b = || { let mut b = BinaryDeserializer::builder_flavor(mk()); b.on_failed_resolve(strat); b };
+        let show = |v: &RareO| format!("{:?}", v);
+        let mut out = vec![];
+        match BinaryTape::from_slice(data) {
+            Ok(tape) => {
+                out.push(("tape", fin(b().deserialize_tape::<_, RareO>(&tape, res), show)));
+                // the deserializer object itself: strategy set after construction
+                let mut de = BinaryDeserializer::builder_flavor(mk()).from_tape(&tape, res);
+                de.on_failed_resolve(strat);
+                out.push(("tape-object", fin(de.deserialize::<RareO>(), show)));
+            }
+            Err(_) => out.push(("tape", "err:parse".to_string())),
+        }
+        out.push(("slice", fin(b().deserialize_slice::<_, RareO>(data, res), show)));
+        out.push(("reader", fin(b().deserialize_reader::<_, RareO, _>(data, res), show)));
+        let mut bt = b();
+        bt.reader_config(TokenReader::builder().buffer_len(need));
+        out.push(("reader-tight", fin(bt.deserialize_reader::<_, RareO, _>(data, res), show)));
+        let mut bm = b();
+        bm.reader_config(TokenReader::builder().buffer_len(need + 7));
+        out.push(("reader-mid", fin(bm.from_reader(sched::SchedReader::new(data, vec![sched::Step::Repeat(3)]), res).deserialize::<RareO>(), show)));
+        out
+    }
+
+    pub fn borrowed_paths<F: BinaryFlavor, RES: TokenResolver>(mk: &dyn Fn() -> F, strat: FailedResolveStrategy, res: &RES, data: &[u8]) -> Vec<(&'static str, String)> {
+        let b = || { let mut b = BinaryDeserializer::builder_flavor(mk()); b.on_failed_resolve(strat); b };
+        let mut out = vec![];
+        match BinaryTape::from_slice(data) {
+            Ok(tape) => out.push(("tape", fin(b().deserialize_tape::<_, RareB>(&tape, res), show_b))),
+            Err(_) => out.push(("tape", "err:parse".to_string())),
+        }
+        out.push(("slice", fin(b().deserialize_slice::<_, RareB>(data, res), show_b)));
+        out
+    }
+
+    fn collapse(s: &str) -> &str { if s.starts_with("err") { "err" } else { s } }
+
+    /// all results equal (same Debug string, or all fail)?  Otherwise: every distinct outcome with the paths
+    /// (strategy / resolver / flavor / path labels, shortened to what differs) that gave it.
+    pub fn disagree(rs: &[(String, String)]) -> Option<String> {
+        let first = rs.first()?;
+        if rs.iter().all(|r| collapse(&r.1) == collapse(&first.1)) { return None; }
+        let mut groups: Vec<(String, Vec<String>)> = vec![];
+        for (l, r) in rs {
+            let key = collapse(r).to_string();
+            match groups.iter_mut().find(|g| g.0 == key) { Some(g) => g.1.push(l.clone()), None => groups.push((key, vec![l.clone()])) }
+        }
+        let paths_only = groups.iter().all(|g| { let mut ps: Vec<&str> = g.1.iter().map(|l| l.rsplit('/').next().unwrap()).collect(); ps.sort(); ps.dedup();
+            groups.iter().filter(|h| h.0 != g.0).all(|h| h.1.iter().all(|l| !ps.contains(&l.rsplit('/').next().unwrap()))) });
+        Some(groups.iter().map(|g| {
+            let mut ls: Vec<String> = if paths_only { g.1.iter().map(|l| l.rsplit('/').next().unwrap().to_string()).collect() } else { g.1.clone() };
+            ls.sort(); ls.dedup();
+            format!("[{}] -> {}", ls.join(","), g.0)
+        }).collect::<Vec<_>>().join("  VERSUS  "))
+    }
+
+    /// the candidate finding a document probes (read off the real tape): a root field `us` / `un` (unit targets:
+    /// the tape path forwards them to `deserialize_any` and the unit visitors reject every token, from_slice /
+    /// from_reader answer `visit_unit` after skipping the value), a root field `big` / `ubig` holding an integer
+    /// (i128 / u128 targets: supported by the tape path only), `arr` / `ts` holding more than two elements (the
+    /// sequential paths insist on the closing lexeme after a tuple, the tape path leaves the rest unread)
+    pub fn probe_kind(data: &[u8], tab: &[(u16, String)]) -> Option<&'static str> {
+        use jomini::BinaryToken as T;
+        let tape = BinaryTape::from_slice(data).ok()?;
+        let toks = tape.tokens();
+        let (mut unit, mut wide, mut long) = (false, false, false);
+        let mut i = 0;
+        while i + 1 < toks.len() {
+            let name: Option<String> = match &toks[i] {
+                T::Unquoted(s) | T::Quoted(s) => Some(String::from_utf8_lossy(s.as_bytes()).to_string()),
+                T::Token(id) => tab.iter().find(|e| e.0 == *id).map(|e| e.1.clone()),
+                _ => None,
+            };
+            let v = &toks[i + 1];
+            match name.as_deref() {
+                Some("us") | Some("un") => unit = true,
+                Some("big") | Some("ubig") => if matches!(v, T::I32(_) | T::I64(_) | T::U32(_) | T::U64(_)) { wide = true },
+                Some("arr") | Some("ts") => if let T::Array(e) = v {
+                    let (mut n, mut j) = (0, i + 2);
+                    while j < *e { n += 1; j = match &toks[j] { T::Array(x) | T::Object(x) => x + 1, _ => j + 1 }; }
+                    if n > 2 { long = true; }
+                },
+                _ => {}
+            }
+            i = match v { T::Array(e) | T::Object(e) => e + 1, _ => i + 2 };
+        }
+        if unit { Some("unit-target-tape-rejects") } else if wide { Some("i128-target-sequential-unsupported") } else if long { Some("tuple-longer-than-target") } else { None }
+    }
+
+    pub fn run(data: &[u8], obs: &mut Obs, case: &dyn Fn() -> String) -> String {
+        let tab = table();
+        let (raw, big) = raw_tokens(data);
+        let need = max_token_len(&raw, big);
+        let dangling = raw.last().map(|t| t == "Stray").unwrap_or(false);
+        if dangling { obs.count("rare:dangling-byte:slice-based-paths-compared-separately"); }
+        let text: String = tab.iter().map(|(i, n)| format!("0x{:x} {}\n", i, n)).collect();
+        let hm_string: HashMap<u16, String> = tab.iter().cloned().collect();
+        let hm_str: HashMap<u16, &str> = tab.iter().map(|(i, n)| (*i, n.as_str())).collect();
+        let basic = BasicTokenResolver::from_text_lines(text.as_bytes()).expect("token text lines");
+        let boxed_h = make_resolver(&Cfg { strat: FailedResolveStrategy::Error, lines: 0, entries: tab.clone() });
+        let boxed_m = make_resolver(&Cfg { strat: FailedResolveStrategy::Error, lines: 4, entries: tab.clone() });
+        let by_ref = &hm_string;
+        // `is_empty` of every resolver kind
+        let empty_h: HashMap<u16, String> = HashMap::new();
+        let empty_b = BasicTokenResolver::from_text_lines(&b""[..]).expect("empty token text");
+        let plain = TableResolver(tab.clone());
+        let empty_b2 = BasicTokenResolver::from_text_lines(&b""[..]).expect("empty token text");
+        let empties = [TokenResolver::is_empty(&hm_string), TokenResolver::is_empty(&hm_str), TokenResolver::is_empty(&basic), TokenResolver::is_empty(&boxed_h),
+            TokenResolver::is_empty(&boxed_m), <&HashMap<u16, String> as TokenResolver>::is_empty(&by_ref), TokenResolver::is_empty(&plain),
+            !TokenResolver::is_empty(&empty_h), !TokenResolver::is_empty(&empty_b), !<&HashMap<u16, String> as TokenResolver>::is_empty(&&empty_h),
+            !TokenResolver::is_empty(&(Box::new(empty_b2) as Box<dyn TokenResolver>)), TokenResolver::is_empty(&TableResolver(vec![]))];
+        if empties.iter().any(|e| *e) { obs.violation("c04-resolver-is-empty", &case(), &format!("{:?}", empties)); }
+
+        // malformed token tables are refused, the reader's error is passed on
+        struct Failing;
+        impl std::io::Read for Failing { fn read(&mut self, _: &mut [u8]) -> std::io::Result<usize> { Err(std::io::Error::new(std::io::ErrorKind::Other, "boom")) } }
+        let bad = [BasicTokenResolver::from_text_lines(&b"0x10\n"[..]).is_err(), BasicTokenResolver::from_text_lines(&b"0xzz name\n"[..]).is_err(),
+            BasicTokenResolver::from_text_lines(&b"0x10000 name\n"[..]).is_err(), BasicTokenResolver::from_text_lines(std::io::BufReader::new(Failing)).is_err(),
+            BasicTokenResolver::from_text_lines(&b"0x10 a\n0x11 b"[..]).is_ok()];
+        if bad.iter().any(|b| !*b) { obs.violation("c04-resolver-text-lines", &case(), &format!("{:?}", bad)); }
+        // the whole document as a map (duplicate keys collapse; keys only)
+        {
+            let b = || { let mut b = BinaryDeserializer::builder_flavor(VFlavor); b.on_failed_resolve(FailedResolveStrategy::Stringify); b };
+            let mut rs: Vec<(String, String)> = vec![];
+            if let Ok(tape) = BinaryTape::from_slice(data) { rs.push(("tape".to_string(), fin(b().deserialize_tape::<_, RootMap>(&tape, &hm_string), show_root))); }
+            rs.push(("slice".to_string(), fin(b().deserialize_slice::<_, RootMap>(data, &hm_string), show_root)));
+            rs.push(("reader".to_string(), fin(b().deserialize_reader::<_, RootMap, _>(data, &hm_string), show_root)));
+            if !dangling { if let Some(d) = disagree(&rs) { obs.violation("c04-rare-root-map-disagree", &case(), &d); } }
+            obs.count(if rs[0].1.starts_with("err") { "rare:root-map:err" } else { "rare:root-map:ok" });
+        }
+        let mut first_owned = String::new();
+        let mut reported: Vec<&'static str> = vec![];
+        let mut per_flavor: Vec<String> = vec![];
+        for strat in [FailedResolveStrategy::Error, FailedResolveStrategy::Stringify, FailedResolveStrategy::Ignore] {
+            let sname = match strat { FailedResolveStrategy::Error => "E", FailedResolveStrategy::Stringify => "S", FailedResolveStrategy::Ignore => "I" };
+            for flavor in 0..2 {
+                let mut all: Vec<(String, String)> = vec![];
+                let mut allb: Vec<(String, String)> = vec![];
+                macro_rules! with_res { ($rname:expr, $res:expr) => {
+                    let (o, bo) = if flavor == 0 {
+                        (owned_paths(&|| VFlavor, strat, $res, data, need), borrowed_paths(&|| VFlavor, strat, $res, data))
+                    } else {
+                        (owned_paths(&|| LeFlavor, strat, $res, data, need), borrowed_paths(&|| LeFlavor, strat, $res, data))
+                    };
+                    for (l, r) in o { all.push((format!("{}/{}/f{}/{}", sname, $rname, flavor, l), r)); }
+                    for (l, r) in bo { allb.push((format!("{}/{}/f{}/{}", sname, $rname, flavor, l), r)); }
+                } }
+                with_res!("hashmap-string", &hm_string);
+                with_res!("hashmap-str", &hm_str);
+                with_res!("basic-text-lines", &basic);
+                with_res!("boxed-hashmap", &boxed_h);
+                with_res!("boxed-mixed-lines", &boxed_m);
+                with_res!("ref-hashmap", &by_ref);
+                with_res!("plain-table", &plain);
+                // the flavor as a reference and boxed (forwarding impls), and the trait's own entry points (strategy Ignore)
+                if flavor == 0 {
+                    for (l, r) in owned_paths(&|| &VFlavor, strat, &hm_string, data, need) { all.push((format!("{}/ref-flavor/f0/{}", sname, l), r)); }
+                    for (l, r) in owned_paths(&|| Box::new(VFlavor), strat, &hm_string, data, need) { all.push((format!("{}/box-flavor/f0/{}", sname, l), r)); }
+                } else {
+                    for (l, r) in owned_paths(&|| &LeFlavor, strat, &hm_string, data, need) { all.push((format!("{}/ref-flavor/f1/{}", sname, l), r)); }
+                    for (l, r) in owned_paths(&|| Box::new(LeFlavor) as Box<dyn BinaryFlavor>, strat, &hm_string, data, need) { all.push((format!("{}/box-dyn-flavor/f1/{}", sname, l), r)); }
+                }
+                if strat == FailedResolveStrategy::Ignore {
+                    let show = |v: &RareO| format!("{:?}", v);
+                    if flavor == 0 {
+                        all.push(("I/trait/f0/slice".to_string(), fin(VFlavor.deserialize_slice::<RareO, _>(data, &hm_string), show)));
+                        all.push(("I/trait/f0/reader".to_string(), fin(VFlavor.deserialize_reader::<RareO, _, _>(data, &basic), show)));
+                        all.push(("I/trait/f0/builder".to_string(), fin(VFlavor.deserializer().deserialize_slice::<_, RareO>(data, &hm_str), show)));
+                    } else {
+                        all.push(("I/trait/f1/slice".to_string(), fin(LeFlavor.deserialize_slice::<RareO, _>(data, &hm_string), show)));
+                        all.push(("I/trait/f1/reader".to_string(), fin(LeFlavor.deserialize_reader::<RareO, _, _>(data, &basic), show)));
+                        all.push(("I/trait/f1/builder".to_string(), fin(LeFlavor.deserializer().deserialize_slice::<_, RareO>(data, &hm_str), show)));
+                    }
+                }
+                // strict inside the tape group and inside the sequential group; a tape-versus-sequential difference is
+                // reported under the candidate finding the document probes (exact kind), else as a plain disagreement
+                let is_tape = |l: &str| l.ends_with("/tape") || l.ends_with("/tape-object");
+                let tapes: Vec<(String, String)> = all.iter().filter(|r| is_tape(&r.0)).cloned().collect();
+                // one dangling byte where a lexeme id should start: both slice-based front ends (the tape parser and the on-demand
+                // lexer: `read_id` answers Eof, which ends the root map; by design, modelled, see the `example` at the end of
+                // Proofs/BinDeCut.lean) take it for the end of the input, the reader refuses the input.  On such an input the
+                // from_slice results are compared with the tape path only, the reader results among themselves
+                let is_slice = |l: &str| dangling && (l.ends_with("/slice") || l.ends_with("/builder"));
+                let is_tape = |l: &str| is_tape(l) || is_slice(l);
+                let seqs: Vec<(String, String)> = all.iter().filter(|r| !is_tape(&r.0) && !is_slice(&r.0)).cloned().collect();
+                if let Some(d) = disagree(&tapes) { obs.violation("c04-rare-paths-disagree", &case(), &format!("{}/f{}: {}", sname, flavor, d)); }
+                if let Some(d) = disagree(&seqs) { obs.violation("c04-rare-paths-disagree", &case(), &format!("{}/f{}: {}", sname, flavor, d)); }
+                if let (Some(t), Some(q)) = (tapes.first(), seqs.first()) {
+                    if dangling {
+                        if collapse(&t.1) != collapse(&q.1) && strat == FailedResolveStrategy::Error && flavor == 0 { obs.count("rare:dangling-byte:slice-based-accept-reader-refuses"); }
+                    } else if collapse(&t.1) != collapse(&q.1) {
+                        let kind = probe_kind(data, &tab).unwrap_or("c04-rare-paths-disagree");
+                        // (a candidate finding is reported once per case, not once per strategy x flavor)
+                        if kind == "c04-rare-paths-disagree" || !reported.contains(&kind) { reported.push(kind); obs.violation(kind, &case(), &format!("{}/f{}: tape paths -> {}  VERSUS  from_slice / from_reader -> {}", sname, flavor, t.1, q.1)); }
+                    } else if strat == FailedResolveStrategy::Error && flavor == 0 {
+                        if let Some(k) = probe_kind(data, &tab) { obs.count(&format!("rare:probe-without-difference:{}", k)); }
+                    }
+                }
+                if let Some(d) = disagree(&allb) { obs.violation("c04-rare-borrowed-paths-disagree", &case(), &format!("{}/f{}: {}", sname, flavor, d)); }
+                obs.count(if all[0].1.starts_with("err") { "rare:owned:err" } else { "rare:owned:ok" });
+                obs.count(if allb[0].1.starts_with("err") { "rare:borrowed:err" } else { "rare:borrowed:ok" });
+                if first_owned.is_empty() { first_owned = format!("{} | {}", all[0].1, allb[0].1); }
+                if strat == FailedResolveStrategy::Error { per_flavor.push(all[0].1.clone()); }
+            }
+        }
+        if per_flavor.len() == 2 && per_flavor[0] != per_flavor[1] { obs.count("rare:flavors-differ"); } else { obs.count("rare:flavors-same"); }
+        first_owned
+    }
+
+    // ---- documents
+
+    fn key(rng: &mut Rng, n: &str) -> BLeaf { if rng.chance(1, 2) { BLeaf::Id(field_id(n)) } else { BLeaf::Unquoted(n.as_bytes().to_vec()) } }
+    fn i32v(rng: &mut Rng) -> BNode { let sh = rng.below(31); BNode::Leaf(BLeaf::I32(rng.next() as i32 >> sh)) }
+    fn strv(rng: &mut Rng, non_ascii: bool) -> BNode {
+        let n = rng.below(5);
+        let mut b: Vec<u8> = (0..n).map(|_| b'a' + rng.below(26) as u8).collect();
+        if non_ascii { b.push([0xe9u8, 0x80, 0xff, 0xc3][rng.below(4)]); if rng.chance(1, 2) { b.push(0xa9); } }
+        BNode::Leaf(if rng.chance(1, 2) { BLeaf::Quoted(b) } else { BLeaf::Unquoted(b) })
+    }
+    fn misfit(rng: &mut Rng) -> BNode {
+        match rng.below(7) {
+            0 => BNode::Leaf(BLeaf::Bool(rng.chance(1, 2))),
+            1 => BNode::Leaf(BLeaf::Quoted(b"zz".to_vec())),
+            2 => BNode::Leaf(BLeaf::U64(rng.next())),
+            3 => BNode::Leaf(BLeaf::F32((rng.next() as u32).to_le_bytes())),
+            4 => BNode::Leaf(BLeaf::Id(0x3200 + rng.below(3) as u16)),
+            5 => BNode::Leaf(BLeaf::I64(rng.next() as i64)),
+            _ => i32v(rng),
+        }
+    }
+
+    /// a document for `RareO` / `RareB`: a random subset of the fields, values that fit (`misfits` = false) or with some
+    /// scalar-level misfits
+    pub fn gen_doc(rng: &mut Rng, misfits: bool, probe: Option<&str>) -> BDoc {
+        let mut fields = vec![];
+        for name in FIELDS {
+            // the fields the three candidate findings are about appear only in documents that probe them
+            let special = matches!(*name, "us" | "un" | "big" | "ubig");
+            let wanted = match probe { Some("unit") => matches!(*name, "us" | "un"), Some("wide") => matches!(*name, "big" | "ubig"), Some("long") => *name == "arr" || *name == "ts", _ => false };
+            if special && !wanted { continue; }
+            if !(wanted && rng.chance(2, 3)) && !rng.chance(1, 3) { continue; }
+            let fit: BNode = match *name {
+                "c" => BNode::Leaf(match rng.below(3) { 0 => BLeaf::Quoted(vec![b'a' + rng.below(26) as u8]), 1 => BLeaf::Unquoted(vec![b'A' + rng.below(26) as u8]), _ => BLeaf::Id(0x3200) }),
+                "bb" | "by" | "raw" => strv(rng, false),
+                "sv" => match rng.below(3) { 0 => BNode::Leaf(BLeaf::Id(0x3201)), _ => { let na = rng.chance(1, 4); strv(rng, na) } },
+                "bs" | "cow" => { let na = rng.chance(1, 4); strv(rng, na) }
+                "us" | "un" | "ig" => match rng.below(4) { 0 => i32v(rng), 1 => strv(rng, false), 2 => BNode::Arr(vec![i32v(rng), BNode::Obj(vec![])]), _ => BNode::Obj(vec![BField { ghosts: 0, key: BLeaf::Id(0x3200), val: i32v(rng) }]) },
+                "nt" => i32v(rng),
+                "ts" => BNode::Arr(vec![i32v(rng), strv(rng, false)]),
+                "arr" => BNode::Arr(vec![i32v(rng), i32v(rng)]),
+                "big" => BNode::Leaf(match rng.below(3) { 0 => BLeaf::I64(rng.next() as i64), 1 => BLeaf::I32(rng.next() as i32), _ => BLeaf::U64(rng.next()) }),
+                "ubig" => BNode::Leaf(if rng.chance(1, 2) { BLeaf::U64(rng.next()) } else { BLeaf::U32(rng.next() as u32) }),
+                "e1" => BNode::Leaf(if rng.chance(1, 2) { BLeaf::Id(variant_id("Unit")) } else { BLeaf::Quoted(b"Unit".to_vec()) }),
+                "e2" => { let v = VARIANTS[rng.below(4)]; BNode::Leaf(if rng.chance(1, 2) { BLeaf::Id(variant_id(v)) } else { BLeaf::Unquoted(v.as_bytes().to_vec()) }) }
+                "hv" => { let n = rng.below(3); BNode::Obj((0..n).map(|i| BField { ghosts: 0, key: if rng.chance(1, 2) { BLeaf::Id(0x3200 + i as u16) } else { BLeaf::Unquoted(vec![b'k', b'0' + i as u8]) }, val: BNode::Arr((0..rng.below(3)).map(|_| i32v(rng)).collect()) }).collect()) }
+                "hm" => { let n = rng.below(4); BNode::Obj((0..n).map(|i| BField { ghosts: if rng.chance(1, 8) { 1 } else { 0 }, key: BLeaf::Id(0x3000 + (i as u16) * 7 + rng.below(5) as u16), val: i32v(rng) }).collect()) }
+                "ids" => { let n = rng.below(4); BNode::Arr((0..n).map(|_| BNode::Leaf(BLeaf::Id(0x2f00 + rng.below(0x400) as u16))).collect()) }
+                "s" => match rng.below(3) { 0 => BNode::Leaf(BLeaf::Id(0x3201)), 1 => BNode::Leaf(BLeaf::Id(0x4444)), _ => { let na = rng.chance(1, 4); strv(rng, na) } },
+                "x" => BNode::Leaf(BLeaf::F32(if rng.chance(1, 2) { ((rng.below(200000) as i32) - 100000).to_le_bytes() } else { (rng.below(1000) as f32 / 8.0).to_le_bytes() })),
+                _ => BNode::Leaf(BLeaf::F64(if rng.chance(1, 2) { ((rng.next() as i64) >> 30).to_le_bytes() } else { (rng.below(100000) as f64 / 16.0).to_le_bytes() })),
+            };
+            let val = if probe == Some("long") && wanted {
+                if *name == "arr" { BNode::Arr((0..3 + rng.below(2)).map(|_| i32v(rng)).collect()) } else { BNode::Arr(vec![i32v(rng), strv(rng, false), i32v(rng)]) }
+            } else if misfits && rng.chance(1, 4) {
+                match *name {
+                    "arr" if rng.chance(1, 2) => BNode::Arr((0..rng.below(2)).map(|_| i32v(rng)).collect()),
+                    "ts" if rng.chance(1, 2) => BNode::Arr(vec![i32v(rng)]),
+                    _ => misfit(rng),
+                }
+            } else { fit };
+            let k = key(rng, name);
+            fields.push(BField { ghosts: 0, key: k, val });
+        }
+        if rng.chance(1, 6) { fields.push(BField { ghosts: 0, key: BLeaf::Unquoted(b"unknown".to_vec()), val: misfit(rng) }); }
+        for i in (1..fields.len()).rev() { let j = rng.below(i + 1); fields.swap(i, j); }
+        if fields.len() > 1 && rng.chance(1, 10) { let k = 1 + rng.below(fields.len() - 1); fields[k].ghosts = 1; }
+        BDoc { fields }
+    }
+}
+
 // ---------------------------------------------------------------------------------------
 // exec
 
@@ -928,6 +1346,10 @@ pub fn exec(w: &[&str], obs: &mut Obs) -> Option<String> {
         ["bde_tapeof", bd] => {
             let d = parse_bdoc(bd)?;
             Some(match BinaryTape::from_slice(&render_bdoc(&d)) { Ok(t) => show::bin_tape(t.tokens()), Err(_) => "err:parse".to_string() })
+        }
+        ["x-rare-bin", h] => {
+            let data = unhex(h)?;
+            Some(rare::run(&data, obs, &case))
         }
         ["x-c04-tup", cfg, h] => {
             let (c, data) = (parse_cfg(cfg)?, unhex(h)?);
@@ -1209,6 +1631,19 @@ pub fn gen(g: &mut Gen) {
         g.emit(format!("x-c04-tup {} {}", show_cfg(&c), hex(&render_bdoc(&bd))));
     }
     g.count("tuple-struct-docs");
+    // rarely used real target types x resolver kinds x flavors (implementation-only)
+    let mr = g.budget(250, 5000);
+    for i in 0..mr {
+        // a few documents per run probe the three candidate findings (reported under their exact kinds)
+        let probe = if i < 36 { Some(["unit", "wide", "long"][i % 3]) } else { None };
+        let bd = rare::gen_doc(&mut g.rng, probe.is_none() && i % 3 == 2, probe);
+        let mut bytes = render_bdoc(&bd);
+        // some documents cut short at a random byte (every path must fail, or all accept a cut at a root field boundary)
+        let cut = probe.is_none() && i % 7 == 3 && bytes.len() > 2;
+        if cut { let n = 1 + g.rng.below(bytes.len() - 1); bytes.truncate(n); g.count("rare-types:truncated"); }
+        g.emit(format!("x-rare-bin {}", hex(&bytes)));
+        g.count(&match probe { Some(p) => format!("probe:rare-{}", p), None => (if i % 3 == 2 { "rare-types:with-scalar-misfits" } else { "rare-types:fitting" }).to_string() });
+    }
 
     // narrow integer targets x every value token kind
     let n4 = g.budget(800, 15_000);
